@@ -107,6 +107,16 @@ def replay_det(ctx, metrics, c, n):
                 ctx.violation("%s:container-type" % (key or "kge").split("_")[0], "%r for another storage of the same numbers, %r for float64 arrays" % (v, ref),
                               dict(case, layout=n % 7))
                 return
+        # column-shaped series ([n, 1], a documented input shape): the same scores
+        for key, f in (("bias", metrics.bias), ("nse", metrics.nse), ("kge", metrics.kge), ("corr", metrics.corr)):
+            try:
+                v1, v2 = float(call(f, obs, sim)), float(call(f, obs[:, None].copy(), sim[:, None].copy()))
+            except Exception as ex:
+                ctx.violation("%s:column-shape:exception" % key, repr(ex), case)
+                return
+            if not (abs(v1 - v2) <= 1e-12 * max(1.0, abs(v1)) or (math.isnan(v1) and math.isnan(v2))):
+                ctx.violation("%s:column-shape" % key, "%r for [n,1] columns, %r for the same series as [n] vectors" % (v2, v1), case)
+                return
         # invariances (exact maps): NSE under a common affine map, bias / KGE under a common positive scaling
         a, b = [(2.0, 3.0), (0.5, -7.0), (-4.0, 1.0), (1.0, 2.0 ** 24), (-0.25, -2.0 ** 27), (2.0 ** 30, 2.0 ** 52)][n % 6]
         v = float(call(metrics.nse, a * obs + b, a * sim + b))
@@ -189,6 +199,19 @@ def replay_bin(ctx, metrics, c, allbin):
     if [sc["trueneg"], sc["falsepos"], sc["falseneg"], sc["truepos"]] != t:
         ctx.violation("binary:counts", "counts echo", case)
     allbin.append((q(e["theta"]), lor))
+    # the same contingency table with every count multiplied by K (long records): all these scores are ratios of counts
+    K = [60000, 1000000, 7][(TN + 3 * FP + 5 * FN + 7 * TP) % 3]
+    try:
+        sck, _ = metrics.binary(np.array([[TN * K, FP * K], [FN * K, TP * K]]))
+    except Exception as ex:
+        ctx.violation("binary:exception", repr(ex), dict(case, scaled_by=K))
+        return
+    for key in ("hitrate", "falsealarm", "precision", "accuracy", "bias", "F1", "ORSS", "MCC", "LOR"):
+        a, b = float(sck[key]), float(sc[key])
+        if not (abs(a - b) <= 1e-9 * max(1.0, abs(b)) or (math.isnan(a) and math.isnan(b))):
+            ctx.violation("binary:large-counts:" + key, "%s=%r for the table with all counts multiplied by %d, %r for the table itself" % (key, a, K, b),
+                          dict(case, scaled_by=K))
+            return
 
 
 def spec_to_code(ctx, metrics):
